@@ -92,7 +92,7 @@ func (m *bloomMem) Exec(op Tok) (opOut Tok, obs Tok) {
 		if a[3].I() == 1 {
 			f.InsertString(string(a[2].B))
 		} else {
-			f.Insert(a[2].B)
+			f.Insert(el(a[2].B))
 		}
 		return opOut, TUnit()
 	case blLookup:
@@ -105,7 +105,7 @@ func (m *bloomMem) Exec(op Tok) (opOut Tok, obs Tok) {
 		if a[3].I() == 1 {
 			return opOut, TBool(f.LookupString(string(a[2].B)))
 		}
-		return opOut, TBool(f.Lookup(a[2].B))
+		return opOut, TBool(f.Lookup(el(a[2].B)))
 	case blFromBits:
 		words := make([]uint64, len(a[2].L))
 		for i, w := range a[2].L {
